@@ -406,8 +406,8 @@ func (c *Contracts) loadContractFile(path, pkgPath string) {
 			case "before", "after":
 				// before|after (call|go|defer) PATTERN assert label: expr
 				f := strings.Fields(rest)
-				if len(f) < 3 || (f[0] != "call" && f[0] != "go" && f[0] != "defer") {
-					c.errf("%s: expected 'call|go|defer' after %s", pos, kw)
+				if len(f) < 3 || (f[0] != "call" && f[0] != "go" && f[0] != "defer" && f[0] != "mapupdate" && f[0] != "send") {
+					c.errf("%s: expected 'call|go|defer|mapupdate|send' after %s", pos, kw)
 					continue
 				}
 				body := strings.TrimSpace(rest[len(f[0]):])
@@ -421,7 +421,7 @@ func (c *Contracts) loadContractFile(path, pkgPath string) {
 				cur.Calls = append(cur.Calls, CallAssert{When: kw, Pattern: pat, Clause: cl})
 			case "forbid":
 				f := strings.Fields(rest)
-				if len(f) < 2 || (f[0] != "call" && f[0] != "go" && f[0] != "defer") {
+				if len(f) < 2 || (f[0] != "call" && f[0] != "go" && f[0] != "defer" && f[0] != "mapupdate" && f[0] != "send") {
 					c.errf("%s: expected 'forbid call PATTERN [label: ...]'", pos)
 					continue
 				}
